@@ -24,6 +24,9 @@ var changeCorpus = []hostile{
 	{`{"values":{"a":{"rid":12}}}`, true}, {`{"values":{"a":{"data":null}}}`, false}, {`{"values":{"a":{"data":}}}`, true},
 	{`{"values":{"a":{"rid":"t.k","soft":"yes"}}}`, true}, {`{"values":{"a":1},"values":{"a":2}}`, false},
 	{`{"values":{"a":1}} trailing`, true},
+	// soft references must name a valid resource id too
+	{`{"values":{"a":{"rid":"a..b","soft":true}}}`, true}, {`{"values":{"a":{"rid":"t.*","soft":true}}}`, true}, {`{"values":{"a":{"rid":"x y","soft":true}}}`, true},
+	{`{"values":{"a":61,"zz":{"rid":"t.>","soft":true}}}`, true}, {`{"values":{"a":{"rid":"t.k","soft":true}}}`, false},
 	// a valid property first, a rejected value object later in document order
 	{`{"values":{"a":51,"zz":{"action":"unknown"}}}`, true}, {`{"values":{"a":52,"zz":{"rid":"x","action":"delete"}}}`, true},
 	{`{"values":{"a":53,"zz":{"rid":""}}}`, true}, {`{"values":{"a":54,"zz":[1,2]}}`, true}, {`{"values":{"a":55,"zz":{"foo":"bar"}}}`, true},
@@ -38,7 +41,8 @@ var addCorpus = []hostile{
 	{`{"idx":9223372036854775808,"value":1}`, true}, {`{"idx":1.5,"value":1}`, true}, {`{"idx":"0","value":1}`, true},
 	{`{"idx":null,"value":1}`, false}, {`{"idx":0,"value":{}}`, true}, {`{"idx":0,"value":[1]}`, true},
 	{`{"idx":0,"value":{"rid":""}}`, true}, {`{"idx":0,"value":{"action":"delete"}}`, true},
-	{`{"idx":0,"value":{"rid":"x y"}}`, true}, {`{"idx":-0,"value":1}`, false}, {`{"idx":1e99,"value":1}`, true},
+	{`{"idx":0,"value":{"rid":"x y"}}`, true}, {`{"idx":0,"value":{"rid":"x y","soft":true}}`, true}, {`{"idx":0,"value":{"rid":"a..b","soft":true}}`, true},
+	{`{"idx":0,"value":{"rid":"t.k","soft":true}}`, false}, {`{"idx":-0,"value":1}`, false}, {`{"idx":1e99,"value":1}`, true},
 	{`{"idx":0,"value":1,"idx":99}`, true}, {`{"idx":0,"value":{"data":{"deep":` + strings.Repeat("[", 5000) + strings.Repeat("]", 5000) + `}}}`, false},
 }
 
@@ -54,7 +58,7 @@ var getCorpus = []string{
 	`{"result":{"collection":[{"rid":"a..b"}]}}`, `{"result":{"collection":[[1]]}}`, `{"result":{"model":{"a":1},"query":12}}`,
 	`{"error":null}`, `{"error":{}}`, `{"error":{"code":12,"message":[]}}`, `{"error":"boom"}`, `{"error":{"code":"system.notFound"}}`,
 	`{"result":{"model":{"a":1}},"error":{"code":"x","message":"y"}}`, `{"result":`, `{"result":{"model":{"a":1}}} x`,
-	`{"result":{"model":{"a":{"data":1e999}}}}`, `{"result":{"model":{"self":{"rid":"t.new0"}}}}`,
+	`{"result":{"model":{"a":{"data":1e999}}}}`, `{"result":{"model":{"a":{"rid":"a..b","soft":true}}}}`, `{"result":{"collection":[{"rid":"t.*","soft":true}]}}`, `{"result":{"model":{"self":{"rid":"t.new0"}}}}`,
 }
 
 var accessCorpus = []string{
